@@ -204,11 +204,15 @@ CLAIMED = {
                 "backend from the tree and the path alone: RootRef::remove_all runs to completion, removes only, and on success the entries "
                 "are exactly those before minus the named one and what lies beneath it (C13_remove_all_post_kernel_backend; the same with the "
                 "emulated backend's parent lookup: C13_remove_all_post_emulated_backend). A caller that finds the entry absent -- e.g. after "
-                "another caller's success -- reports success and changes nothing (C13_later_caller_succeeds_without_change). "
+                "another caller's success -- reports success and changes nothing (C13_later_caller_succeeds_without_change). RACE CLAUSE on the "
+                "model: remove_all with the environment removing entries between any two of its system calls (what every other remove_all "
+                "caller does; the listing of a pass goes stale) reports success with the name gone for EVERY interleaving, on trees with "
+                "unique short plain names (C13_converges_under_racing_removers); without interference that semantics is rm_all "
+                "(C13_interference_free_is_spec). "
                 "Runtime: whole-sandbox snapshots on deep/wide subtrees with links to siblings/parents/outside x path spellings (difference must "
                 "be exactly the named entry and what is below it), 2-4 racing callers per path, and links swapped in at every boundary of a running remove_all.",
-        "note": COMMON_NOTE + "Partial: the race clause is proved only for callers that run one after the other; remove_all under a concurrent "
-                "remover at system-call granularity is decided by the racing and schedule runs; the fuel is the model's stand-in for 'the loops "
+        "note": COMMON_NOTE + "Partial: the race theorem is about environments that only remove and says nothing about termination; the real "
+                "scheduler and mixed environments are decided by the racing and schedule runs; the fuel is the model's stand-in for 'the loops "
                 "end because the directory empties' -- with a static tree; under a concurrent refiller the library has no bound and none is claimed; getdents returns the whole listing at once in the model (the kernel's batching is covered by the "
                 "all-answers theorem C13_stays_beneath); convergence of concurrent callers is decided by the race / schedule runs. The dynamic "
                 "kernel model is tied by T2d (every answer of recorded remove_all executions incl. listings and F_GETFL, and the final tree).",
